@@ -54,8 +54,10 @@ type ReqSpec struct {
 	// Helper: the response is produced by one of the Store's own helpers instead of WriteHeader/Write:
 	// respond200 | json | redirect | error404 | error500 | std (an http.HandlerFunc wrapped by CreateHandler)
 	Helper string `json:"helper,omitempty"`
-	PV     string `json:"pv"` // panic value kind
-	Remote string `json:"remote,omitempty"`
+	// flushInert: set by runCase when the case's writer cannot flush (the handler still calls Flush)
+	flushInert bool
+	PV         string `json:"pv"` // panic value kind
+	Remote     string `json:"remote,omitempty"`
 }
 
 func (r ReqSpec) uri() string {
@@ -94,9 +96,9 @@ func (r ReqSpec) panicsBeforeWrite() bool {
 	case "before":
 		return true
 	case "afterheader":
-		return r.Code == 0 && r.Flush == "" && r.Helper == ""
+		return r.Code == 0 && (r.Flush == "" || r.flushInert) && r.Helper == ""
 	default: // afterbody
-		return r.Code == 0 && !r.Body && r.Flush == "" && r.Helper == ""
+		return r.Code == 0 && !r.Body && (r.Flush == "" || r.flushInert) && r.Helper == ""
 	}
 }
 
@@ -243,7 +245,18 @@ type Case struct {
 	V6        bool      `json:"v6,omitempty"`
 	Conc      int       `json:"conc"`
 	Reqs      []ReqSpec `json:"reqs"`
+	// NoFlush (recorder path only): the response writer handed to the Mux has no Flush / FlushError
+	// method (like the writer of http.TimeoutHandler): W.Flush() then sends nothing, so a panic after
+	// it still happens "before any status was written".
+	NoFlush bool `json:"no_flush,omitempty"`
 }
+
+// plainWriter hides every optional interface of the writer it wraps.
+type plainWriter struct{ rw http.ResponseWriter }
+
+func (p plainWriter) Header() http.Header         { return p.rw.Header() }
+func (p plainWriter) Write(b []byte) (int, error) { return p.rw.Write(b) }
+func (p plainWriter) WriteHeader(code int)        { p.rw.WriteHeader(code) }
 
 type rec struct {
 	kind                  string // BEG END ERR
@@ -462,6 +475,13 @@ func runCase(cs Case, st *stats) (key, expected, observed string) {
 		}
 		cs.Reqs = reqs
 	}
+	if cs.NoFlush && !cs.Wire {
+		reqs := append([]ReqSpec(nil), cs.Reqs...)
+		for i := range reqs {
+			reqs[i].flushInert = true
+		}
+		cs.Reqs = reqs
+	}
 	w := recw.New(len(cs.Reqs)*3+16, 0)
 	l := logger.New(logrun.NewHandler(cs.Kind, w, cs.Threshold, false))
 	mux := httpd.NewMux()
@@ -572,7 +592,11 @@ func runCase(cs Case, st *stats) (key, expected, observed string) {
 								results[i].err = fmt.Sprintf("panic out of ServeHTTP: %v", r)
 							}
 						}()
-						mux.ServeHTTP(rr, req)
+						if cs.NoFlush {
+							mux.ServeHTTP(plainWriter{rr}, req)
+						} else {
+							mux.ServeHTTP(rr, req)
+						}
 					}()
 					results[i].status = rr.Code
 				}
@@ -975,6 +999,10 @@ func (mn mon) Run(sh drv.Shard, c *drv.Ctx) {
 					}
 				}
 			}
+			// the same product behind a response writer that cannot flush
+			if !exec(Case{Kind: kind, Threshold: 1, Wire: false, Conc: 1, Reqs: reqs, NoFlush: true}) {
+				return
+			}
 		}
 		// every status code 200..599, set once, with and without a body, no panic
 		var all []ReqSpec
@@ -994,6 +1022,7 @@ func (mn mon) Run(sh drv.Shard, c *drv.Ctx) {
 		r := rand.New(rand.NewSource(sh.Seed*65537 + int64(a.Part)))
 		for i := 0; i < a.Count; i++ {
 			cs := Case{Kind: logrun.Kinds[i%3], Threshold: []int{1, 1, 1, 3}[r.Intn(4)], Wire: r.Intn(3) != 0, Conc: []int{8, 64}[r.Intn(2)], Reqs: randReqs(r, a.N)}
+			cs.NoFlush = !cs.Wire && r.Intn(2) == 0
 			if c.NumSamples() < 1 {
 				c.Sample(map[string]any{"handler": cs.Kind, "threshold": cs.Threshold, "wire": cs.Wire, "in_flight": cs.Conc, "requests": len(cs.Reqs), "first": cs.Reqs[0].uri()})
 			}
